@@ -8,7 +8,7 @@ theorem sm_generate_command_mac (sk c : Bytes) (l : Option Nat) : Gen.sm.generat
   unfold Gen.sm.generate_command_mac generateCommandMac
   simp only [mac_mac3, bind, Except.bind, pure, Except.pure]
   repeat (first | rfl | split)
-  all_goals simp_all
+  all_goals first | (simp_all; done) | slice_forms
 
 /-- **C06 about the translated source** -/
 theorem source_generate_command_mac (sk cmd : Bytes) (len : Option Nat) (hsk : sk.length = 16) :
